@@ -386,6 +386,9 @@ def _sig(a):
     return a.atomic_number, a.isotope, a.charge, a.is_radical, a.implicit_hydrogens
 
 
+STICKY_GAP_HITS = [0]      # per worker process; configuration-only differences inside C01's recorded gaps (counted, not judged)
+
+
 def sticky_trips(m, ident, r, n_left=3):
     """domain of the docstring of sticky_smiles: connected, terminal left / right atoms; radical-free because the method writes no CXSMILES"""
     from bounded import domains as D
@@ -417,7 +420,13 @@ def sticky_trips(m, ident, r, n_left=3):
                 elif right and _sig(m2._atoms[o2[-1]]) != _sig(m._atoms[right]):
                     d = f'the text does not end with the right atom {right}'
                 elif stereo_isomorphic(m, m2) is False:
-                    d = f'the text denotes another molecule (reference enumerator), read back as {str(m2)!r}'
+                    # same rule as every other C01 / C02 comparison: inside C01's two recorded gaps (predicates fixed in DESIGN section 2 C01, decided
+                    # by the symmetry oracle on the input) a difference of CONFIGURATION only is counted, not judged; anything else is reported
+                    from oracles.o01_gaps import gaps
+                    if format(m, '!s') == format(m2, '!s') and any(gaps(m)):
+                        STICKY_GAP_HITS[0] += 1
+                    else:
+                        d = f'the text denotes another molecule (reference enumerator), read back as {str(m2)!r}'
             except Exception as e:
                 d = f'reading the written text back raised {type(e).__name__}: {e}'
         ncases += 1
